@@ -31,7 +31,7 @@ BOUNDS = {k_: v_ + BOUNDS_ALSO for k_, v_ in BOUNDS.items()}
 ASSUMPTIONS = ["A-FP", "A-NP incl. in-place ufunc semantics (out=) of the object-array model", "formatting runs with its output discarded (C-level %g on the NaN payload)",
                "proxies pickle by reference, so the real __reduce__ of Scalar/FixedArray/Quantity is what is exercised"]
 CHUNK = 10
-POOL = ["a_np_nonfinite", "a_np_nonfinite_b", "fs_improper", "a_np_degC", "f_np_degC", "a_np_Pag", "s_s.m", "f_derived", "f_empty", "s_two_cats", "a_np_limited", "a_list_limited", "s_m", "s_cm_depth", "s_degC", "s_m2", "s_cm2", "s_per_s", "s_empty", "s_unknown", "a_list_m", "a_tuple_cm", "a_np_m", "a_np_cm2", "a_list_m2",
+POOL = ["s_unknown_nocap", "s_cm_cap", "a_unknown_cap", "a_np_nonfinite", "a_np_nonfinite_b", "fs_improper", "a_np_degC", "f_np_degC", "a_np_Pag", "s_s.m", "f_derived", "f_empty", "s_two_cats", "a_np_limited", "a_list_limited", "s_m", "s_cm_depth", "s_degC", "s_m2", "s_cm2", "s_per_s", "s_empty", "s_unknown", "a_list_m", "a_tuple_cm", "a_np_m", "a_np_cm2", "a_list_m2",
         "f_list_m", "f_np_cm", "fs_in", "fs_frac_in"]
 BINOPS = ["iadd", "isub", "imul", "idiv", "ifdiv", "imul_num", "add", "sub", "mul", "div", "fdiv", "radd_num", "rdiv_num", "mul_num", "eq", "ne", "lt", "le"]
 UNOPS = ["pickle_all", "GetValue_other", "GetValue_own", "CreateCopy", "CreateCopy_unit", "CreateCopy_value", "IsValid", "CheckValidity", "str", "repr", "GetFormatted",
@@ -50,6 +50,9 @@ def items(tier, seed):
         # the pairs known to exercise unit matching with exponents on caller-owned numpy storage are always in
         for a, b in (("s_two_cats", "s_m2"), ("s_two_cats", "s_cm2"), ("s_m2", "s_two_cats"), ("s_two_cats", "s_two_cats"), ("a_np_m", "a_np_cm2"), ("a_np_cm2", "a_np_m"), ("a_np_cm2", "a_list_m2"), ("a_list_m2", "a_np_cm2"), ("s_m2", "s_cm2"), ("f_np_cm", "a_np_m")):
             for o in ("add", "mul", "div", "sub"):
+                out.append({"op": o, "a": a, "b": b})
+        for a, b in (("s_unknown", "s_unknown_nocap"), ("s_unknown_nocap", "s_unknown"), ("s_cm_cap", "s_m"), ("s_m", "s_cm_cap"), ("a_unknown_cap", "s_unknown_nocap"), ("s_unknown_nocap", "a_unknown_cap")):
+            for o in ("add", "sub", "radd_num", "mul", "eq"):
                 out.append({"op": o, "a": a, "b": b})
         for a, b in (("a_np_nonfinite", "a_np_nonfinite_b"), ("a_np_nonfinite_b", "a_np_nonfinite"), ("a_np_nonfinite", "a_np_nonfinite")):
             for o in ("eq", "ne", "div", "fdiv", "mul", "add", "sub", "lt"):
@@ -95,6 +98,11 @@ def make_pool(V):
     p["a_np_nonfinite"] = Array(_np.array([float("nan"), 0.0, float("inf"), -0.0, 2.5]), "m")
     p["a_np_nonfinite_b"] = Array(_np.array([float("nan"), 0.0, float("inf"), -0.0, 2.5]), "m")
     p["fs_improper"] = FractionScalar(FractionValue(x[22], (7, 4)), "in")
+    from barril.units import ObtainQuantity as _OQ
+
+    p["s_unknown_nocap"] = Scalar(GetUnknownQuantity(), x[6])  # shares unit and category with the captioned s_unknown
+    p["s_cm_cap"] = Scalar(_OQ("cm", "length", "as measured"), x[7])  # a caption on a known unit, to be added to the plain s_m
+    p["a_unknown_cap"] = Array(GetUnknownQuantity("Gamma Ray"), [x[8], x[9]])
     p["a_np_degC"] = Array(_arr([x[2], x[3]]), "degC")  # pure-offset units on caller-owned numpy storage
     p["f_np_degC"] = FixedArray(2, _arr([x[4], x[5]]), "degC")
     p["a_np_Pag"] = Array(_arr([x[6], x[7]]), "Pa(g)")
